@@ -63,6 +63,8 @@ def ent_json(d):
         hdrs.append(["content-type", "text/plain"])
     if d["nhdr"] >= 2:
         hdrs.append(["content-language", "en"])
+    if d["nhdr"] >= 3:
+        hdrs.append(["content-language", "de"])
     return {
         "len": d["len"],
         "etag": ETAGS.get(d["etag"]),
